@@ -231,6 +231,8 @@ var newUClientConnection = func(
 					}
 				}
 				s.connIDManager.SetConnectionIDLimit(params.ActiveConnectionIDLimit)
+				// what the peer is told about our idle timeout; keep-alives must respect it
+				s.advertisedIdleTimeout = params.MaxIdleTimeout
 				tpSet = true
 				break FOR_EACH_TLS_EXTENSION
 			default:
